@@ -293,5 +293,10 @@ func Parse(sql string) (interface{}, error) {
 	}
 	l := &lexer{tokens: ts}
 	yyParse(l)
-	return l.result, l.err
+	if l.err != nil {
+		// (the statement rule may have been reduced before the error: what
+		// follows a complete statement is an error, not a statement)
+		return nil, l.err
+	}
+	return l.result, nil
 }
